@@ -270,9 +270,8 @@ fn c01_with_recorder_precedence() {
 }
 
 // ------------------------------------------------------------------------------------------------
-// bounded symbolic programs over the real thread-local (<= 3 installs, <= 6 steps)
+// bounded symbolic programs over the real thread-local (<= 3 installs, <= STEPS steps: 4 in the quick tier, 5 in the thorough tier)
 // ------------------------------------------------------------------------------------------------
-pub const STEPS: usize = 6;
 pub const MAXI: usize = 3;
 
 // operations of the symbolic program
@@ -290,30 +289,57 @@ pub const CLASS_NESTED: u8 = 0; // no mem::forget, every scope ends while it is 
 pub const CLASS_OUT_OF_ORDER: u8 = 1; // no mem::forget, at least one scope ended while NOT innermost; checked from there on
 pub const CLASS_FORGET: u8 = 2; // at least one mem::forget(guard); checked from there on
 
-pub struct World<'r> {
-    pub recs: &'r [Rec; MAXI],
+pub struct World<'r, const STEPS: usize> {
+    pub recs: [&'r Rec; MAXI], // three separate objects
     pub prog: [u8; STEPS],
     pub class: u8,
     pub guards: [Option<LocalRecorderGuard<'r>>; MAXI],
     // ghost
-    pub n: usize,            // recorders installed so far (rec_0 .. rec_{n-1})
-    pub live: [bool; MAXI],  // installing borrow of rec_i still alive
+    pub n: usize,             // recorders installed so far (rec_0 .. rec_{n-1})
+    pub live: [bool; MAXI],   // installing borrow of rec_i still alive
     pub stack: [usize; MAXI], // live scopes in installation order, innermost last
     pub sp: usize,
     pub out_of_order: bool, // some scope ended while it was not the innermost live one
     pub forgot: bool,       // some guard was leaked with mem::forget
     pub global: bool,
-    pub emits: u8,
     pub checked_emits: u8,
+    // verdicts (accumulated, asserted at the end so that one violation does not hide another)
+    pub bad_i: bool,        // I violated: LOCAL pointed to a recorder whose installing borrow had ended
+    pub bad_d: bool,        // LOCAL was not the innermost live local recorder
+    pub bad_dead: bool,     // an emission was dispatched to a recorder after its installing borrow ended
+    pub bad_delivery: bool, // an emission was not delivered exactly once to the innermost live recorder / global / no-op
 }
 
-impl<'r> World<'r> {
-    pub fn new(recs: &'r [Rec; MAXI], prog: [u8; STEPS], class: u8) -> Self {
+impl<'r, const STEPS: usize> World<'r, STEPS> {
+    pub fn new(recs: [&'r Rec; MAXI], prog: [u8; STEPS], class: u8) -> Self {
         World {
             recs, prog, class,
             guards: [None, None, None],
             n: 0, live: [false; MAXI], stack: [0; MAXI], sp: 0,
-            out_of_order: false, forgot: false, global: false, emits: 0, checked_emits: 0,
+            out_of_order: false, forgot: false, global: false, checked_emits: 0,
+            bad_i: false, bad_d: false, bad_dead: false, bad_delivery: false,
+        }
+    }
+    // `recs[i]` / `guards[i]` with the index made concrete first (no pointer with a symbolic offset is formed)
+    fn rec(&self, i: usize) -> &'r Rec {
+        match i {
+            0 => self.recs[0],
+            1 => self.recs[1],
+            _ => self.recs[2],
+        }
+    }
+    fn take_guard(&mut self, i: usize) -> Option<LocalRecorderGuard<'r>> {
+        match i {
+            0 => self.guards[0].take(),
+            1 => self.guards[1].take(),
+            _ => self.guards[2].take(),
+        }
+    }
+    fn put_guard(&mut self, i: usize, g: LocalRecorderGuard<'r>) {
+        match i {
+            0 => self.guards[0] = Some(g),
+            1 => self.guards[1] = Some(g),
+            _ => self.guards[2] = Some(g),
         }
     }
     fn innermost(&self) -> Option<usize> {
@@ -355,7 +381,7 @@ impl<'r> World<'r> {
         }
         let mut i = 0;
         while i < MAXI {
-            if p == addr_of(&self.recs[i]) {
+            if p == addr_of(self.recs[i]) {
                 return Some(i);
             }
             i += 1;
@@ -364,23 +390,26 @@ impl<'r> World<'r> {
         None
     }
     /// invariant I and the state half of D, required after every API step
-    fn check_state(&self) {
+    fn check_state(&mut self) {
         if !self.in_force() {
             return;
         }
         let l = self.local_index();
         // I: LOCAL is None or points to a recorder whose installing borrow is still alive
         if let Some(i) = l {
-            assert!(self.live[i], "I: LOCAL points to a recorder whose installing borrow has ended");
+            if !self.live[i] {
+                self.bad_i = true;
+            }
         }
         // D (state half): LOCAL is the innermost live scope's recorder
-        assert!(l == self.innermost(), "D: LOCAL is not the innermost live local recorder");
+        if l != self.innermost() {
+            self.bad_d = true;
+        }
     }
     fn emit(&mut self) {
         let before = [self.recs[0].hits.get(), self.recs[1].hits.get(), self.recs[2].hits.get()];
         let g_before = G_HITS.load(AO::SeqCst);
         let _ = crate::counter!("c");
-        self.emits += 1;
         if !self.in_force() {
             return;
         }
@@ -389,18 +418,22 @@ impl<'r> World<'r> {
         let mut i = 0;
         while i < MAXI {
             let delta = self.recs[i].hits.get() - before[i];
-            if delta != 0 {
-                assert!(self.live[i], "emission dispatched to a recorder after the borrow that installed it ended");
+            if delta != 0 && !self.live[i] {
+                self.bad_dead = true;
             }
-            assert!(delta == if want == Some(i) { 1 } else { 0 }, "D: emission not delivered exactly once to the innermost live local recorder");
+            if delta != (if want == Some(i) { 1 } else { 0 }) {
+                self.bad_delivery = true;
+            }
             i += 1;
         }
         let g_delta = G_HITS.load(AO::SeqCst) - g_before;
-        assert!(g_delta == if want.is_none() && self.global { 1 } else { 0 }, "D: global recorder precedence");
+        if g_delta != (if want.is_none() && self.global { 1 } else { 0 }) {
+            self.bad_delivery = true;
+        }
     }
     /// a guard-held scope ends by drop (forget == false) or is leaked (forget == true)
     fn end_guard(&mut self, i: usize, forget: bool) {
-        if let Some(g) = self.guards[i].take() {
+        if let Some(g) = self.take_guard(i) {
             if self.class == CLASS_NESTED {
                 // the general class: scopes end innermost-first and nothing is leaked
                 kani::assume(!forget && self.innermost() == Some(i));
@@ -422,9 +455,9 @@ impl<'r> World<'r> {
 }
 
 /// Runs the program from the (concrete) position `pc` at closure depth `depth`; returns the position after the
-/// OP_CLOSE that ended this closure level (or STEPS).  `pc` is concrete at every call site so CBMC unfolds the
-/// recursion into at most 2^STEPS straight-line copies.
-pub fn exec(w: &mut World<'_>, pc: usize, depth: u8) -> usize {
+/// OP_CLOSE that ended this closure level (or STEPS).  `pc` is concrete at every call site, so CBMC unfolds the
+/// recursion into finitely many straight-line copies (about 2^STEPS).
+pub fn exec<const STEPS: usize>(w: &mut World<'_, STEPS>, pc: usize, depth: u8) -> usize {
     if pc >= STEPS {
         return STEPS;
     }
@@ -432,18 +465,16 @@ pub fn exec(w: &mut World<'_>, pc: usize, depth: u8) -> usize {
     if op == OP_OPEN && w.n < MAXI {
         let i = w.n;
         w.n += 1;
-        let recs = w.recs;
-        let next = crate::with_local_recorder(&recs[i], || {
+        let rec = w.rec(i);
+        let next = crate::with_local_recorder(rec, || {
             w.begin_scope(i);
             w.check_state();
             exec(w, pc + 1, depth + 1)
         });
-        // the closure returned: the borrow of rec_i ends here
-        if w.class != CLASS_FORGET {
-            // (guards created inside and carried out of the closure make this an out-of-order end)
-            if w.class == CLASS_NESTED {
-                kani::assume(w.innermost() == Some(i));
-            }
+        // the closure returned: the borrow of rec_i ends here (a guard created inside and carried out of the
+        // closure makes this an out-of-order end)
+        if w.class == CLASS_NESTED {
+            kani::assume(w.innermost() == Some(i));
         }
         if !w.end_scope(i) {
             w.out_of_order = true;
@@ -465,8 +496,9 @@ pub fn exec(w: &mut World<'_>, pc: usize, depth: u8) -> usize {
     if op == OP_GUARD && w.n < MAXI {
         let i = w.n;
         w.n += 1;
-        let recs = w.recs;
-        w.guards[i] = Some(crate::set_default_local_recorder(&recs[i]));
+        let rec = w.rec(i);
+        let g = crate::set_default_local_recorder(rec);
+        w.put_guard(i, g);
         w.begin_scope(i);
     } else if op >= OP_DROP0 && op < OP_DROP0 + 3 {
         w.end_guard((op - OP_DROP0) as usize, false);
@@ -482,26 +514,25 @@ pub fn exec(w: &mut World<'_>, pc: usize, depth: u8) -> usize {
     exec(w, pc + 1, depth)
 }
 
-pub fn run_program(class: u8, prog: [u8; STEPS]) {
+pub fn run_program<const STEPS: usize>(class: u8, prog: [u8; STEPS]) {
     let mut k = 0;
     while k < STEPS {
         kani::assume(prog[k] <= OP_MAX);
         k += 1;
     }
-    let recs = [Rec::new(0), Rec::new(1), Rec::new(2)];
+    let (r0, r1, r2) = (Rec::new(0), Rec::new(1), Rec::new(2));
     set_local(None);
-    let mut w = World::new(&recs, prog, class);
+    let mut w: World<'_, STEPS> = World::new([&r0, &r1, &r2], prog, class);
     w.check_state();
     exec(&mut w, 0, 0);
     // end of the program: guards still held go out of scope innermost-first (reverse declaration order)
     let mut i = MAXI;
     while i > 0 {
         i -= 1;
-        if w.guards[i].is_some() {
+        if let Some(g) = w.take_guard(i) {
             if class == CLASS_NESTED {
                 kani::assume(w.innermost() == Some(i));
             }
-            let g = w.guards[i].take();
             drop(g);
             if !w.end_scope(i) {
                 w.out_of_order = true;
@@ -509,48 +540,63 @@ pub fn run_program(class: u8, prog: [u8; STEPS]) {
             w.check_state();
         }
     }
-    // one final emission: nothing installed locally any more
+    // one final emission
     w.emit();
     if class == CLASS_NESTED {
         assert!(!w.out_of_order && !w.forgot);
-        assert!(local_addr().is_null());
+        assert!(local_addr().is_null(), "every scope ended: no local recorder is installed");
     }
-    kani::cover!(w.checked_emits >= 3);
-    kani::cover!(w.n == 3 && w.checked_emits >= 2);
+    kani::cover!(w.checked_emits >= 2);
+    kani::cover!(w.n == 3 && w.checked_emits >= 1);
+    let (bad_i, bad_d, bad_dead, bad_delivery) = (w.bad_i, w.bad_d, w.bad_dead, w.bad_delivery);
     set_local(None);
+    assert!(!bad_dead, "an emission was dispatched to a recorder after the borrow that installed it had ended");
+    assert!(!bad_i, "I: LOCAL pointed to a recorder whose installing borrow had ended");
+    assert!(!bad_d, "D: LOCAL was not the innermost live local recorder");
+    assert!(!bad_delivery, "D: an emission was not delivered exactly once to the innermost live local recorder (else global, else no-op)");
 }
 
-// bounded(<= 3 installs, <= 6 steps), class NESTED: every program whose scopes end innermost-first (closures by
+// bounded(<= 3 installs, <= 4 steps), class NESTED: every program whose scopes end innermost-first (closures by
 // construction, guards by discipline), mixing guards, closures, emissions and a global installation: I and D hold
 // after every step and at every emission.
-pub fn c01_scopes_nested_body(o0: u8, o1: u8, o2: u8, o3: u8, o4: u8, o5: u8) {
-    run_program(CLASS_NESTED, [o0, o1, o2, o3, o4, o5]);
+pub fn c01_scopes_nested_body(o0: u8, o1: u8, o2: u8, o3: u8) {
+    run_program(CLASS_NESTED, [o0, o1, o2, o3]);
 }
 #[cfg(kani)]
 #[kani::proof]
 fn c01_scopes_nested() {
-    c01_scopes_nested_body(kani::any(), kani::any(), kani::any(), kani::any(), kani::any(), kani::any());
+    c01_scopes_nested_body(kani::any(), kani::any(), kani::any(), kani::any());
+}
+
+// the same with <= 5 steps (thorough tier; 6 steps exceeded 14 GB / 19 min in CBMC)
+pub fn c01_scopes_nested5_body(o0: u8, o1: u8, o2: u8, o3: u8, o4: u8) {
+    run_program(CLASS_NESTED, [o0, o1, o2, o3, o4]);
+}
+#[cfg(kani)]
+#[kani::proof]
+fn c01_scopes_nested5() {
+    c01_scopes_nested5_body(kani::any(), kani::any(), kani::any(), kani::any(), kani::any());
 }
 
 // bounded, class OUT_OF_ORDER: programs (without mem::forget) in which some scope ends while it is not the
 // innermost live one -- e.g. guard A, guard B, drop(guard A), drop(guard B).  I and D are required from the
-// first such event on.  EXPECTED TO FAIL on the pinned tree (finding, see FINDINGS.md).
-pub fn c01_guard_fifo_drop_body(o0: u8, o1: u8, o2: u8, o3: u8, o4: u8, o5: u8) {
-    run_program(CLASS_OUT_OF_ORDER, [o0, o1, o2, o3, o4, o5]);
+// first such event on.  FAILS on the pinned tree (finding, see FINDINGS.md).
+pub fn c01_guard_fifo_drop_body(o0: u8, o1: u8, o2: u8, o3: u8) {
+    run_program(CLASS_OUT_OF_ORDER, [o0, o1, o2, o3]);
 }
 #[cfg(kani)]
 #[kani::proof]
 fn c01_guard_fifo_drop() {
-    c01_guard_fifo_drop_body(kani::any(), kani::any(), kani::any(), kani::any(), kani::any(), kani::any());
+    c01_guard_fifo_drop_body(kani::any(), kani::any(), kani::any(), kani::any());
 }
 
 // bounded, class FORGET: programs containing mem::forget(guard).  I and D are required from the first forget
-// on.  EXPECTED TO FAIL on the pinned tree (finding, see FINDINGS.md).
-pub fn c01_guard_forget_body(o0: u8, o1: u8, o2: u8, o3: u8, o4: u8, o5: u8) {
-    run_program(CLASS_FORGET, [o0, o1, o2, o3, o4, o5]);
+// on.  FAILS on the pinned tree (finding, see FINDINGS.md).
+pub fn c01_guard_forget_body(o0: u8, o1: u8, o2: u8, o3: u8) {
+    run_program(CLASS_FORGET, [o0, o1, o2, o3]);
 }
 #[cfg(kani)]
 #[kani::proof]
 fn c01_guard_forget() {
-    c01_guard_forget_body(kani::any(), kani::any(), kani::any(), kani::any(), kani::any(), kani::any());
+    c01_guard_forget_body(kani::any(), kani::any(), kani::any(), kani::any());
 }
